@@ -33,13 +33,13 @@ type cacheKeyed struct {
 }
 
 type execOp struct {
-	kind    int // 0 Exec shared template, 1 Parse+Exec, 2 Render, 3 CacheSet+Render, 4 Clone+Exec, 5 page then layout with ONE context
+	kind    int // 0 Exec shared template, 1 Parse+Exec, 2 Render, 3 CacheSet+Render, 4 Clone+Exec, 5 page then layout with ONE context, 6 NewTemplate+Exec inside the task
 	prog    int
 	variant int
 }
 
 func (o execOp) String() string {
-	k := [...]string{"Exec(shared template)", "Parse+Exec", "Render", "CacheSet(NewTemplate)+Render", "Clone+Exec", "Exec(page) then Exec(layout) with the same context"}[o.kind]
+	k := [...]string{"Exec(shared template)", "Parse+Exec", "Render", "CacheSet(NewTemplate)+Render", "Clone+Exec", "Exec(page) then Exec(layout) with the same context", "NewTemplate+Exec (parsed by the task itself)"}[o.kind]
 	return fmt.Sprintf("%s prog %d data %d", k, o.prog, o.variant)
 }
 
